@@ -45,6 +45,9 @@ RelationsSane == /\ \A s \in Status : Holds("same", s, s) /\ Holds("iff", s, s)
 \*   dns    : the BR variant also judges the common name, so it must be empty, an IP address, or one of the SAN names
 \*   sanian : the SAN and IAN extension values are byte-identical;   dn : subject and issuer are byte-identical
 SameContent(cls, e) == CASE cls = "dns" -> e.cnCovered [] cls = "sanian" -> e.sameSANIAN [] cls = "dn" -> e.sameDN [] OTHER -> TRUE
+\* pairs discovered by name among the registered lints (the families of the property are open): same judgement
+ExtraReasons(e, X) == {<<X[i].a, e.xa[i], e.xb[i]>> :
+                         i \in {j \in 1..Len(X) : j <= Len(e.xa) /\ SameContent(X[j].cls, e) /\ ~HoldsStrict(X[j].rel, e.xa[j], e.xb[j])}}
 PairReasons(e) == {<<PairTable[i].a, e.a[i], e.b[i]>> :
                       i \in {j \in 1..Len(PairTable) : j <= Len(e.a) /\ SameContent(PairTable[j].cls, e) /\ ~HoldsStrict(PairTable[j].rel, e.a[j], e.b[j])}}
 =============================================================================
